@@ -13,12 +13,18 @@ inductive Op where
   | setLen (l : Nat) | incLen (d : Nat) | decLen (d : Nat) | unsetLen
   | finish          -- finish / finish_with_message / finish_and_clear: position := length if set
   | abandon         -- abandon / abandon_with_message: position unchanged
+  | resetElapsed    -- reset_elapsed: position, length and status unchanged
+  | resetEta        -- reset_eta: position, length and status unchanged
+  | finishStyle     -- finish_using_style: the behaviour configured with `with_finish`
 deriving Repr, DecidableEq
 
 structure St where
   pos : Nat := 0
   len : Option Nat := none
   finished : Bool := false
+  /-- the configured `ProgressFinish` moves the position to the length (`AndLeave`, `WithMessage`,
+  `AndClear`) or keeps it (`Abandon`, `AbandonWithMessage`); it is never changed by any operation -/
+  moves : Bool := true
 deriving Repr, DecidableEq
 
 def wrapAdd (a b : Nat) : Nat := (a + b) % U64
@@ -37,6 +43,9 @@ def step (s : St) : Op → St
   | .unsetLen => { s with len := none }
   | .finish => { s with pos := s.len.getD s.pos, finished := true }
   | .abandon => { s with finished := true }
+  | .resetElapsed => s
+  | .resetEta => s
+  | .finishStyle => if s.moves then { s with pos := s.len.getD s.pos, finished := true } else { s with finished := true }
 
 def run (s : St) (ops : List Op) : St := ops.foldl step s
 
